@@ -121,6 +121,10 @@ def values(rng, dtype, n, vclass="small"):
         hi = min(int(ii.max), 100)
         return np.array([rng.randint(lo, hi) for _ in range(n)], dtype=dt)
     # floats
+    if vclass == "decimal":
+        # values that are not exactly representable / of very different magnitude: anything that re-derives them by arithmetic (differences, prefix sums) gets them wrong
+        pool = [0.1, 0.7, 3.3, 0.05, 1.0 / 3.0, 2.5, 1e16, 1.0, 1e-9, 123456.789, -0.3, 0.9, 1e9]
+        return np.array([rng.choice(pool) for _ in range(n)], dtype=dt)
     if vclass == "nonfinite":
         pool = [0.0, -0.0, 1.0, -1.5, 2.25, float("nan"), float("inf"), float("-inf")]
         return np.array([rng.choice(pool) for _ in range(n)], dtype=dt)
